@@ -60,6 +60,10 @@ CHECKS = {
             'Gen/Blocking.lean lists, for every parent-side wait/terminate, each blocking call with what bounds it, the guard deriving the remote timeout, the returned expression and the negative-timeout check. C04_bounded_* / C04_factor: every blocking call is timeout-bounded, poll-guarded or a reply of the (itself bounded) server control thread, at most three timeouts in a row; C04_remote_timeout: for every timeout including 0 the server is asked to wait a finite time <= timeout, and the generated guard is the one for which this holds; C04_truthful; C04_idempotent (induction over arbitrary call sequences on dead / never-run workers). Every run executes histories of wait/terminate/is_alive/close with timeouts 0 and 0.3 on real thread/process/remote workers whose target is cooperative, swallows exceptions, sleeps, holds the GIL in C or is SIGSTOPped, each scenario in its own process, checking duration, return value against /proc liveness, immediacy on dead/never-run workers and death after a forced terminate.',
             'Partial: wall-clock behaviour, signal delivery and the kernel are measured, not proved (bound checked as 3 x timeout + 2.5 s). The T-block translator recognises join/poll/get/recv_msg/accept patterns only.',
             '§7 C04'),
+    'C02': ('Lean 4 proof over regenerated run-loop programs (undisturbed run) + finite tables for the factory and the never-run rule + model/impl comparison against direct calls',
+            'C02_direct_* / C02_kinds_agree: on the programs regenerated from /repo an undisturbed run of a target that returns / raises an Exception is observed by the parent exactly as the direct call\'s outcome, for thread, process and remote kinds, hence the kinds agree; C02_notrun and C02_create_table cover the never-run rule and Worker.create. The size clause is modelled by a capacity protocol: C02_delivered_thread_remote for every size, C02_process_counterexample / C02_process_partial for the process kind (known finding). Every run executes a menu of module-level targets (positional/keyword/varargs, None and falsy values, nested containers, custom class, byte strings of 0 B..1 MB (4 MB thorough) around the measured pipe capacity, four exception classes) directly and in the three kinds through the constructor and Worker.create, plus run=None/True/False and target None.',
+            'Values are abstract in the Lean model (pickling is CPython). Known finding: ProcessWorker result larger than the pipe buffer deadlocks wait(). Main-script-defined classes not exercised.',
+            '§7 C02'),
 }
 NOT_YET = 'check not built yet in this session (work in progress; see DESIGN.md §13 for the order)'
 
